@@ -39,6 +39,9 @@ type Case struct {
 	N     int            `json:"devices"`
 	Place map[string]int `json:"placement_bitmask_spec_then_devices"`
 	Perm  []int          `json:"device_order"`
+	// Prev, when set: one Spec object first holds Prev's content and is asked for its minimum
+	// version, then is overwritten in place with this case's content and asked again.
+	Prev *Case `json:"same_object_held_before,omitempty"`
 }
 
 func editsWith(c Case, pos int) specs.ContainerEdits {
@@ -176,10 +179,19 @@ func eval(c Case) hx.Result {
 	return hx.Guard("", c, func() hx.Result {
 		want := model(c)
 		s := build(c)
+		pre := ""
+		if c.Prev != nil {
+			s = build(*c.Prev)
+			_, _ = specs.MinimumRequiredVersion(s)
+			s.Version = "0.3.0"
+			_ = specs.ValidateVersion(s)
+			*s = *build(c)
+			pre = "object-edited-in-place:"
+		}
 		got, err := specs.MinimumRequiredVersion(s)
 		if err != nil || got != want {
 			return hx.Result{Outcome: "FAIL", Nontrivial: true, Fail: &hx.Failure{Rank: rank(c),
-				Sig: "minver:" + explain(c, want, got), Msg: fmt.Sprintf("MinimumRequiredVersion = %q (err %v), want %q for features %s", got, err, want, describe(c)),
+				Sig: pre + "minver:" + explain(c, want, got), Msg: fmt.Sprintf("MinimumRequiredVersion = %q (err %v), want %q for features %s", got, err, want, describe(c)),
 				Case: c, Expected: want, Actual: got}}
 		}
 		if g2, _ := cdi.MinimumRequiredVersion(s); g2 != want {
@@ -199,7 +211,7 @@ func eval(c Case) hx.Result {
 			s.Version = decl
 			_ = specs.ValidateVersion(s)
 		}
-		return hx.Result{Outcome: "min=" + want, Nontrivial: len(describe(c)) > 0}
+		return hx.Result{Outcome: pre + "min=" + want, Nontrivial: len(describe(c)) > 0}
 	})
 }
 
@@ -293,9 +305,33 @@ func main() {
 	enumerate(1, true, emit)
 	enumerate(2, true, emit)
 	enumerate(3, r.Thorough(), emit)
+	// histories on one object: every ordered pair of the (n=2, identity order) cases that use at most
+	// one feature at one position, plus every case preceded by its neighbour in the enumeration
+	var small []Case
+	for _, c := range cases {
+		if c.N == 2 && c.Perm[0] == 0 && rank(c) <= 12 {
+			small = append(small, c)
+		}
+	}
+	base := len(cases)
+	for i := 1; i < base; i += 3 {
+		c := cases[i]
+		p := cases[i-1]
+		c.Prev = &p
+		cases = append(cases, c)
+	}
+	for i := range small {
+		for j := range small {
+			c, p := small[j], small[i]
+			c.Prev = &p
+			cases = append(cases, c)
+		}
+	}
+	r.Extra["same_object_histories"] = len(cases) - base
 	r.Rule = "every assignment of the 8 version-gated features to position sets (spec level / device k of n, n<=3; each feature at " +
 		map[bool]string{true: "<=2 positions", false: "<=1 position (n=3) or <=2 (n<=2)"}[r.Thorough()] + ") x every device permutation x " +
 		fmt.Sprintf("%d declared version strings; each edits block also carries an untyped mount and a host-path-less device node as controls; ", len(declaredDomain)) +
+		"then histories of two contents held by ONE Spec object (asked, overwritten in place, asked again): all ordered pairs of the single-feature cases and every third case after its neighbour; " +
 		"oracle = literal feature->version table, maximum by semver. Cases distinct by construction; non-trivial = at least one feature used"
 	r.Assumptions = []string{"v-prefixed declared versions are only checked for absence of panics (statement does not define them)", "more than 3 devices are not enumerated"}
 	r.ParallelL(int64(len(cases)), func(i int64, l *hx.Local) {
